@@ -269,6 +269,107 @@ def racyTwoThreads (s x y : Rat) : Rat :=
   let _afterA := readA + x
   readB + y
 
+/-! ## Loop fusion of two DoF loops -/
+
+theorem eval_setFld_ne {E : Env} {t d d' : Nat} {v : Rat} (h : d ≠ d') (e : Expr) :
+    eval (setFld E t d v) d' e = eval E d' e := by
+  apply eval_congr
+  · intro i
+    have : ¬ (i = t ∧ d' = d) := fun hh => h hh.2.symm
+    simp only [setFld, this, if_false]
+  · intro i; rfl
+  · intro k; rfl
+
+theorem setFld_comm (E : Env) (t1 t2 d d' : Nat) (v1 v2 : Rat) (h : d ≠ d') :
+    setFld (setFld E t1 d v1) t2 d' v2 = setFld (setFld E t2 d' v2) t1 d v1 := by
+  apply Env.ext' <;> intros <;> simp only [setFld]
+  rename_i i x
+  by_cases h1 : i = t2 ∧ x = d' <;> by_cases h2 : i = t1 ∧ x = d
+  · exact absurd (h2.2.symm.trans h1.2) h
+  · rw [if_pos h1, if_neg h2, if_pos h1]
+  · rw [if_neg h1, if_pos h2, if_pos h2]
+  · rw [if_neg h1, if_neg h2, if_neg h2, if_neg h1]
+
+theorem setFld_setScal_comm (E : Env) (t d u : Nat) (v w : Rat) :
+    setScal (setFld E t d v) u w = setFld (setScal E u w) t d v := rfl
+
+theorem setScal_comm (E : Env) (t u : Nat) (v w : Rat) (h : t ≠ u) :
+    setScal (setScal E t v) u w = setScal (setScal E u w) t v := by
+  apply Env.ext' <;> intros <;> simp only [setScal]
+  rename_i i
+  by_cases h1 : i = u <;> by_cases h2 : i = t
+  · exact absurd (h2.symm.trans h1) h
+  · rw [if_pos h1, if_neg h2, if_pos h1]
+  · rw [if_neg h1, if_pos h2, if_pos h2]
+  · rw [if_neg h1, if_neg h2, if_neg h2, if_neg h1]
+
+/-- Iterations of two statements at *different* DoFs commute when the statements are scalar-independent. -/
+theorem exec_comm (s1 s2 : Stmt) (d d' : Nat) (h : d ≠ d') (hi : scalIndep s1 s2) (E : Env) :
+    exec s2 d' (exec s1 d E) = exec s1 d (exec s2 d' E) := by
+  cases s1 with
+  | fassign t1 e1 =>
+    cases s2 with
+    | fassign t2 e2 =>
+        simp only [exec, eval_setFld_ne h, eval_setFld_ne (Ne.symm h)]
+        exact setFld_comm E t1 t2 d d' _ _ h
+    | sassign t2 e2 =>
+        have hr : usesScal t2 e1 = false := by
+          have := (hi t2).2 (by simp [Stmt.writesScal]); simpa [Stmt.readsScal] using this
+        simp only [exec, eval_setFld_ne h, eval_setScal e1 hr]
+        rfl
+    | rand t2 =>
+        simp only [exec, eval_setFld_ne (Ne.symm h)]
+        exact setFld_comm E t1 t2 d d' _ _ h
+  | sassign t1 e1 =>
+    cases s2 with
+    | fassign t2 e2 =>
+        have hr : usesScal t1 e2 = false := by
+          have := ((hi t1).1 (by simp [Stmt.writesScal])).1; simpa [Stmt.readsScal] using this
+        simp only [exec, eval_setFld_ne (Ne.symm h), eval_setScal e2 hr]
+        rfl
+    | sassign t2 e2 =>
+        have h12 := (hi t1).1 (by simp [Stmt.writesScal])
+        have hne : t1 ≠ t2 := by
+          intro hh; have := h12.2; simp [Stmt.writesScal, hh] at this
+        have hr2 : usesScal t1 e2 = false := by simpa [Stmt.readsScal] using h12.1
+        have hr1 : usesScal t2 e1 = false := by
+          have := (hi t2).2 (by simp [Stmt.writesScal]); simpa [Stmt.readsScal] using this
+        simp only [exec, eval_setScal e2 hr2, eval_setScal e1 hr1]
+        exact setScal_comm E t1 t2 _ _ hne
+    | rand t2 =>
+        simp only [exec, eval_setFld_ne (Ne.symm h)]
+        rfl
+  | rand t1 =>
+    cases s2 with
+    | fassign t2 e2 =>
+        simp only [exec, eval_setFld_ne h]
+        exact setFld_comm E t1 t2 d d' _ _ h
+    | sassign t2 e2 =>
+        simp only [exec, eval_setFld_ne h]
+        rfl
+    | rand t2 =>
+        simp only [exec]
+        exact setFld_comm E t1 t2 d d' _ _ h
+
+theorem loopN_exec_comm (s1 s2 : Stmt) (hi : scalIndep s1 s2) (n d : Nat) (hd : n < d) (E : Env) :
+    loopN s2 1 n (exec s1 d E) = exec s1 d (loopN s2 1 n E) := by
+  induction n with
+  | zero => rfl
+  | succ n ih =>
+      simp only [loopN]
+      rw [ih (by omega), exec_comm s1 s2 d (1 + n) (by omega) hi]
+
+/-- Fusing `do df: s1` ; `do df: s2` into `do df: s1; s2` preserves the final state, for every upper bound and all
+values, when the two statements are scalar-independent (no reduction variable of one is read or written by the
+other).  Field dependences are pointwise by construction: `s2` at `df` reads only element `df`. -/
+theorem fusion_sound (s1 s2 : Stmt) (hi : scalIndep s1 s2) (n : Nat) (E : Env) :
+    loopL [s1, s2] 1 n E = loopN s2 1 n (loopN s1 1 n E) := by
+  induction n with
+  | zero => rfl
+  | succ n ih =>
+      simp only [loopL, execList, loopN, ih]
+      rw [loopN_exec_comm s1 s2 hi n (1 + n) (by omega)]
+
 /-! ## A built-in's generated code implements its documented formula -/
 
 /-- For every upper bound `n` and all argument values, running the generated code over the DoFs
